@@ -570,6 +570,10 @@ func C06(tier string) int {
 			for _, big := range []string{"4294967295", "4294967296", "9223372036854775807", "9223372036854775808", "9223372036854775908", "18446744073709551615", "18446744073709551616", "99999999999999999999999"} {
 				add(C06Case{Kind: "sizebig", Mode: mode, N: N, SizeStr: big, Buf: 4096})
 			}
+			// a declared size above the limit written with leading zeros (octal to a parser with base 0)
+			for _, z := range []string{fmt.Sprintf("00%d", N+1), fmt.Sprintf("0%d", 12*N+7), fmt.Sprintf("0000%d", 10*N)} {
+				add(C06Case{Kind: "sizebig", Mode: mode, N: N, SizeStr: z, Buf: 4096})
+			}
 			// a declared size above the limit glued to the path, behind a TAB or behind two spaces: however the server
 			// reads such a line, it must not accept it and open a transaction
 			for _, sep := range []string{"none", "tab", "two"} {
